@@ -9,13 +9,17 @@ open JanetModel.Thread JanetModel.Props.C08
 
 abbrev cfg : Cfg :=
   { requeue := Gen.Thread.requeueOnNoReader, requeueHead := Gen.Thread.requeueAtHead,
-    redispatch := Gen.Thread.redispatchToNext, checkSched := Gen.Thread.cbChecksSchedId }
+    redispatch := Gen.Thread.redispatchToNext, checkSched := Gen.Thread.cbChecksSchedId,
+    forwardOwnSched := Gen.Thread.forwardOwnSchedId }
 abbrev tcfg : TCfg := { completionAfterBody := Gen.Thread.completionAfterBody }
 abbrev rcfg : RCfg :=
   { increfBeforeSend := Gen.Thread.increfBeforeSend, recvKnownDecref := Gen.Thread.unmarshalKnownTestIsAbsent }
 
 /-- the callback must not deliver to a fiber that moved on -/
 theorem checks_sched_id : cfg.checkSched = true := by decide
+
+/-- a forwarded wake-up must carry the next waiter's own sched_id (else a parked writer is never resumed) -/
+theorem forward_own_sched_id : cfg.forwardOwnSched = true := by decide
 
 theorem exactly_once_current (limit : Nat) (acts : List Act) : Conserved (run cfg acts (init limit)) :=
   exactly_once cfg (by decide) (by decide) limit acts
